@@ -127,7 +127,9 @@ def hdr10plus_json(r, nframes, nscenes, clean):
     scenes = []
     for i in range(nframes):
         dv = [r.randrange(0, 100000) for _ in range(9)]
-        scenes.append({"LuminanceParameters": {"AverageRGB": r.randrange(0, 100000), "LuminanceDistributions": {"DistributionIndex": [1, 5, 10, 25, 50, 75, 90, 95, 99], "DistributionValues": dv},
+        # dark scenes (averages between the CM v2.9 and v4.0 floors of avg_pq: 1 .. 10 nits) as often as bright ones
+        avg_rgb = r.choice([r.randrange(0, 100000), r.randrange(0, 300), r.choice([0, 4, 5, 14, 15, 50, 94, 95, 104, 105])])
+        scenes.append({"LuminanceParameters": {"AverageRGB": avg_rgb, "LuminanceDistributions": {"DistributionIndex": [1, 5, 10, 25, 50, 75, 90, 95, 99], "DistributionValues": dv},
                                                "MaxScl": [r.randrange(0, 100001) for _ in range(3)]},
                        "NumberOfWindows": 1, "TargetedSystemDisplayMaximumLuminance": 0, "SceneFrameIndex": 0, "SceneId": 0, "SequenceFrameIndex": i})
     if not clean and r.random() < 0.5:
@@ -175,11 +177,15 @@ def run(res):
             args += ["--long-play-mode", "true" if b else "false"]
             mp.append("olong@%d" % (1 if b else 0))
             stats["overrides"] += 1
-        use_hdr = r.random() < 0.2
+        use_hdr = r.random() < 0.3
         if use_hdr:
             nfr = r.choice([1, 2, 5, 9, 14])
             nsc = r.randint(1, min(4, nfr))
             root, firsts, lens = hdr10plus_json(r, nfr, nsc, clean)
+            if "l1_avg_pq_cm_version" not in cfg and r.random() < 0.6:
+                v = r.random() < 0.4
+                cfg["l1_avg_pq_cm_version"] = "V40" if v else "V29"
+                mp.append("l1cm@%d" % (1 if v else 0))
             src = r.choice(SOURCES)
             w.write("hdr.json", json.dumps(root).encode())
             args += ["--hdr10plus-json", w.path("hdr.json"), "--hdr10plus-peak-source", src]
@@ -266,7 +272,7 @@ def run(res):
     res.coverage.update({
         "evaluations": nrun * 2,
         "distinct_nontrivial": ncase,
-        "rule": "generator configs built field by field: cm_version given/omitted, profile 5 / 8.1 / 8.4 by both spellings, long_play_mode, source min/max PQ, l1_avg_pq_cm_version, level5, level6 (incl. values deriving source levels), default blocks of every level, 0..5 shots with durations 0..9 in any order, frame edits at offset 0 / last / beyond the shot / duplicated, L1 values inside and outside the legal ranges, length given / omitted / inconsistent; CLI overrides -p and --long-play-mode; 20% with an HDR10+ JSON of 1..14 frames and 1..4 scenes (first-frame offsets, all four peak sources, inconsistent summary arrays); output compared RPU by RPU with the Coq model (base RPU of the profile taken from the implementation's empty config), and directly: count = requested length, every RPU parses, profile, CM version, scene-cut flag on the first frame of each shot or on every frame in long-play mode",
+        "rule": "generator configs built field by field: cm_version given/omitted, profile 5 / 8.1 / 8.4 by both spellings, long_play_mode, source min/max PQ, l1_avg_pq_cm_version, level5, level6 (incl. values deriving source levels), default blocks of every level, 0..5 shots with durations 0..9 in any order, frame edits at offset 0 / last / beyond the shot / duplicated, L1 values inside and outside the legal ranges, length given / omitted / inconsistent; CLI overrides -p and --long-play-mode; 30% with an HDR10+ JSON of 1..14 frames and 1..4 scenes (first-frame offsets, all four peak sources, inconsistent summary arrays, scene averages between the CM v2.9 and v4.0 avg_pq floors, l1_avg_pq_cm_version differing from cm_version); output compared RPU by RPU with the Coq model (base RPU of the profile taken from the implementation's empty config), and directly: count = requested length, every RPU parses, profile, CM version, scene-cut flag on the first frame of each shot or on every frame in long-play mode",
         "cli_runs": nrun, "outcomes": stats,
     })
     res.assumptions += ["the per-profile base RPU (header / mapping / DM presets of profiles/*.rs) is an input of the model taken from the implementation for the empty config",
